@@ -162,7 +162,8 @@ PROPS = {
                           "fd_ext_post_handshake_auth", "fd_ext_npn", "leaf_ext_ec_point_formats", "leaf_ext_renegotiation_info", "leaf_ext_psk_modes", "leaf_ext_sct",
                           "leaf_ext_unknown", "leaf_ext_elliptic_curves", "leaf_named_groups", "leaf_ext_signature_algorithms", "leaf_ext_alpn", "leaf_ext_sni", "leaf_ext_esni",
                           "leaf_ext_session_ticket", "leaf_ext_key_share_old", "leaf_ext_key_share", "leaf_ext_pre_shared_key", "leaf_ext_cookie", "leaf_ext_padding",
-                          "leaf_ext_status_request", "leaf_ext_early_data", "leaf_ext_supported_versions", "leaf_ext_oid_filters", "shim_be", "shim_length_data"]
+                          "leaf_ext_status_request", "leaf_ext_early_data", "leaf_ext_supported_versions", "leaf_ext_oid_filters", "shim_be", "shim_length_data",
+                          "shim_tag", "shim_verify", "shim_take", "shim_map_parser"]
                          + ["rel_tag_rej_" + t for t in _TAGS]
                          + ["rel_tag_" + t for t in _TAGS if t not in ("sni", "elliptic_curves", "signature_algorithms", "supported_versions", "psk_key_exchange_modes")],
                    thorough=["rel_tag_sni", "rel_tag_elliptic_curves", "rel_tag_signature_algorithms", "rel_tag_supported_versions", "rel_tag_psk_key_exchange_modes"], timeout=900, timeout_thorough=2400)],
